@@ -10,7 +10,7 @@ fn main() {
     }
     let meta = Meta {
         rule: "per primitive, every combination of arguments from: all usize arrays of length <=4 (values <=3), all index arrays of length <=3, all range forms with lo <= hi <= len, all edge lists of <=3 edges over <=4 nodes (thorough: <=4 over <=5); combinations outside the documented precondition (index out of range, unequal lengths, underflow, d = 0) are enumerated but skipped and not counted as non-trivial; plus every array of length <=9 over {0,1} and <=6 over {0,1,2} through all unary primitives (block / lane thresholds), every array of length <=3 over magnitudes {0,1,2,255,256,257,1023,1024,1025,4097}, structured edge lists on up to 64 nodes (deep union-find trees) and sparse edge lists on up to 4097 nodes".into(),
-        bounds: "quick: array length <=4, values <=3, index arrays <=3, graphs <=4 nodes / <=3 edges; thorough: array length <=5, values <=4, index arrays <=4, graphs <=5 nodes / <=4 edges; generic primitives additionally at element type String".into(),
+        bounds: "quick: array length <=4, values <=3, index arrays <=3, graphs <=4 nodes / <=3 edges; thorough: array length <=5 (<=8 for the single-argument primitives argsort, reductions, bincount, sparse_bincount, zero, segmented_arange, quot_rem, scalar add, to_dense), values <=4, index arrays <=4, graphs <=5 nodes / <=4 edges plus every list of exactly 5 edges over 5 and over 6 nodes; generic primitives additionally at element type String".into(),
         assumptions: vec!["scalar reference loops are the specification".into(), "where the contract leaves a choice (argsort ties, component numbering, sparse_bincount order, scatter filler / double writes) any conforming answer is accepted".into()],
         explanation: "explicit enumeration of the real VecArray trait methods against scalar loops; partition equality for connected components".into(),
     };
